@@ -237,6 +237,12 @@ def harness(it, px, params):
         cfgs.append(('R', layout, ('infix', False, 'sym3')))
     cfgs.append(('R', 'a#1', ('postfix', True, 'sym3')))
     cfgs.append(('R', 'a#b', ('prefix', False, 'sym3')))
+    # a word operator of four three-byte characters (12 bytes, 4 characters: longer in bytes than any built-in operator
+    # is in characters) and one of two (6 bytes), as written by users of non-Latin scripts
+    for layout in ('a @ b', '1 @', '@ a'):
+        for kind in ('infix', 'prefix', 'postfix'):
+            cfgs.append(('R', layout, (kind, False, 'cjk4')))
+    cfgs.append(('R', 'a @ b', ('infix', True, 'cjk2')))
     k = pick_config(px, 'cfg', len(cfgs))
     fam, p1, p2 = cfgs[k]
     px.notes.append('%s %s %s' % (fam, p1, p2))
@@ -260,7 +266,9 @@ def harness(it, px, params):
         kind, pre, alpha = p2
         c1 = px.bv('op1', 8)
         c2 = px.bv('op2', 8)
-        if alpha in ('sym', 'sym3'):
+        if alpha in ('cjk4', 'cjk2'):
+            pass
+        elif alpha in ('sym', 'sym3'):
             px.add(z3.Or([c1 == z3.BitVecVal(x, 8) for x in OPSTART]))
             # second character: ASCII punctuation that is not a delimiter, quote, comma or semicolon
             punct = [x for x in range(0x21, 0x7F) if not chr(x).isalnum() and x not in DELIMS and x not in b'"\',;_.']
@@ -278,6 +286,8 @@ def harness(it, px, params):
                              z3.And(z3.UGE(c, z3.BitVecVal(0x41, 8)), z3.ULE(c, z3.BitVecVal(0x5A, 8)))))
         px.get_model()
         opb = (c1, c2, c3) if alpha in ('mb', 'sym3') else (c1, c2)
+        if alpha in ('cjk4', 'cjk2'):
+            opb = tuple('\u5927\u4e8e\u7b49\u4e8e'.encode() if alpha == 'cjk4' else '\u4e0d\u5c0f'.encode())
         opname = Str(opb)
         # the operator must not already be a built-in one (we want a *new* registration)
         for wd in registry_words([]):
@@ -493,7 +503,7 @@ def run(ctx):
             'states': max(1, summ['paths']), 'transitions': max(1, summ['decisions']),
             'traces_validated_against_impl': validated, 'samples': samples[:30], 'exhaustive': not summ.get('truncated') and not inconclusive,
             'bound': {'utf8_input_bytes_max': N, 'string_family': 'quote + <=2 characters (1-3 bytes each, symbolic) + quote + <=2 ASCII bytes',
-                      'registered_operator_family': 'two symbolic characters (operator-start char + ASCII punctuation; or two letters = a word operator) registered as infix / prefix / postfix operator, before first use and after the text was tokenized once, in layouts a@b, a @ b, a@@b, 1@2, a@=b, @a, 1 @, @ a, 1@, a @@ b; three symbolic symbol characters (# = the first two of them) in layouts a#1, a # b, a#b @ c, 1 #, a@b, a#b'},
+                      'registered_operator_family': 'two symbolic characters (operator-start char + ASCII punctuation; or two letters = a word operator) registered as infix / prefix / postfix operator, before first use and after the text was tokenized once, in layouts a@b, a @ b, a@@b, 1@2, a@=b, @a, 1 @, @ a, 1@, a @@ b; three symbolic symbol characters (# = the first two of them) in layouts a#1, a # b, a#b @ c, 1 #, a@b, a#b; the concrete word operators \u5927\u4e8e\u7b49\u4e8e (12 bytes) and \u4e0d\u5c0f in layouts a @ b, 1 @, @ a'},
             'path_status': by_status,
             'solver': {'engine': 'z3 ' + z3.get_version_string(), 'queries_sat': summ['sat'], 'queries_unsat': summ['unsat'],
                        'queries_unknown': summ['unknown'], 'solver_s': round(summ['solver_s'], 2)},
